@@ -10,8 +10,8 @@ static const Pool &pool(hz::Ctx &ctx) { static Pool p = build_pool(ctx.seed, 2);
 // mode flags in command-line order
 static const char *MODEFLAGS[] = {"--nasm-mov-imm", "--strict-mov-imm", "--smart-mov-imm", "--nasm-sib", "--strict-sib", "--nasm-sib-index-base-swap", "--strict-sib-index-base-swap", "--nasm-sib-no-base", "--strict-sib-no-base", "-n", "-t", "-s", "--nasm", "--strict", "--smart"};
 struct CliCase { int longname = 0; /* length of the -o / -P file name (0 = short default) */ std::vector<int> modeflags; bool p = false, r = false, from_stdin = false; int outkind = 0 /*0 none 1 -P 2 -o 3 -P unwritable*/; int chunk = 0, brk = 0; std::vector<std::string> lines; int progkind = 0 /*0 pool 1 failing 2 executable*/; uint64_t retval = 0; bool final_newline = true; int sep = 0; /* line separator: 0 LF, 1 CRLF, 2 bare CR */ int rkind = 0; /* how the run is requested when r is set: 0 -r, 1 --return, 2 --rand, 3 -r=3, 4 --return=17, 5 -r --rand, 6 --rand -r */ };
-static std::string ser20(const CliCase &c) { std::string s = "C20|"; for (size_t i = 0; i < c.modeflags.size(); i++) s += (i ? "," : "") + std::to_string(c.modeflags[i]); s += "|" + std::to_string(c.p) + "|" + std::to_string(c.r) + "|" + std::to_string(c.from_stdin) + "|" + std::to_string(c.outkind) + "|" + std::to_string(c.chunk) + "|" + std::to_string(c.brk) + "|" + std::to_string(c.progkind) + "|" + std::to_string(c.retval) + "|" + std::to_string(c.final_newline + 2 * c.longname + 100000 * c.sep + 1000000 * c.rkind); for (auto &l : c.lines) s += "|" + l; return s; }
-static bool parse20(const std::string &s, CliCase &c) { auto f = split(s, '|'); if (f.size() < 11 || f[0] != "C20") return false; for (auto &x : split(f[1], ',')) if (!x.empty()) c.modeflags.push_back(atoi(x.c_str())); c.p = f[2] == "1"; c.r = f[3] == "1"; c.from_stdin = f[4] == "1"; c.outkind = atoi(f[5].c_str()); c.chunk = atoi(f[6].c_str()); c.brk = atoi(f[7].c_str()); c.progkind = atoi(f[8].c_str()); c.retval = strtoull(f[9].c_str(), nullptr, 10); { int v = atoi(f[10].c_str()); c.rkind = v / 1000000; v %= 1000000; c.sep = v / 100000; v %= 100000; c.final_newline = v & 1; c.longname = v / 2; } c.lines.assign(f.begin() + 11, f.end()); return true; }
+static std::string ser20(const CliCase &c) { std::string s = "C20|"; for (size_t i = 0; i < c.modeflags.size(); i++) s += (i ? "," : "") + std::to_string(c.modeflags[i]); s += "|" + std::to_string(c.p) + "|" + std::to_string(c.r) + "|" + std::to_string(c.from_stdin) + "|" + std::to_string(c.outkind) + "|" + std::to_string(c.chunk) + "|" + std::to_string(c.brk) + "|" + std::to_string(c.progkind) + "|" + std::to_string(c.retval) + "|" + std::to_string(c.final_newline + 2 * (c.longname < 0 ? 40000 - c.longname : c.longname) + 100000 * c.sep + 1000000 * c.rkind); for (auto &l : c.lines) s += "|" + l; return s; }
+static bool parse20(const std::string &s, CliCase &c) { auto f = split(s, '|'); if (f.size() < 11 || f[0] != "C20") return false; for (auto &x : split(f[1], ',')) if (!x.empty()) c.modeflags.push_back(atoi(x.c_str())); c.p = f[2] == "1"; c.r = f[3] == "1"; c.from_stdin = f[4] == "1"; c.outkind = atoi(f[5].c_str()); c.chunk = atoi(f[6].c_str()); c.brk = atoi(f[7].c_str()); c.progkind = atoi(f[8].c_str()); c.retval = strtoull(f[9].c_str(), nullptr, 10); { int v = atoi(f[10].c_str()); c.rkind = v / 1000000; v %= 1000000; c.sep = v / 100000; v %= 100000; c.final_newline = v & 1; c.longname = v / 2; if (c.longname > 40000) c.longname = 40000 - c.longname; } c.lines.assign(f.begin() + 11, f.end()); return true; }
 static std::string cmdline(const CliCase &c) { std::string s = "asmline"; for (int m : c.modeflags) s += std::string(" ") + MODEFLAGS[m]; if (c.chunk) s += " -c " + std::to_string(c.chunk); if (c.brk) s += " -b " + std::to_string(c.brk); if (c.p) s += " -p"; if (c.r) { static const char *RK[] = {" -r", " --return", " --rand", " -r=3", " --return=17", " -r --rand", " --rand -r"}; s += RK[c.rkind % 7]; } if (c.outkind == 1) s += " -P out.raw"; if (c.outkind == 2) s += " -o outname"; if (c.outkind == 3) s += " -P /nonexistent-dir/x"; s += c.from_stdin ? " < prog.asm" : " prog.asm"; return s; }
 
 struct CV { bool ok = true; std::string symptom, detail; };
@@ -37,7 +37,10 @@ static CV check20(const CliCase &c) {
   asm_destroy_instance(a);
   // ---- the real tool
   std::string dir = tmpdir(), src = dir + "/prog.asm", praw = dir + "/out.raw", oname = dir + "/outname";
-  if (c.longname) { // names longer than a path component allows are spread over nested directories (asmline -o refuses dots, not slashes)
+  if (c.longname < 0) { // characters that mean something to printf, the shell or option parsers (asmline -o refuses dots only)
+    static const char *ODDN[] = {"out%x", "out%%d", "a b", "o%s%s%s%s", "100%", "name%n", "q'uote", "semi;colon", "d$ollar", "t\tab", "\xc3\xbcml", "%"}; std::string base = ODDN[(-c.longname - 1) % 12];
+    praw = dir + "/" + base + "_raw"; oname = dir + "/" + base; }
+  else if (c.longname) { // names longer than a path component allows are spread over nested directories (asmline -o refuses dots, not slashes)
     std::string base; int left = c.longname; std::string at = dir; while (left > 200) { std::string comp(180, 'd'); base += comp + "/"; at += "/" + comp; mkdir(at.c_str(), 0755); left -= 181; } base += std::string(left, 'n');
     praw = dir + "/" + base + "_raw"; oname = dir + "/" + base; }
   { FILE *f = fopen(src.c_str(), "wb"); if (!f) return bad("harness", "cannot write source"); if (!text.empty()) fwrite(text.data(), 1, text.size(), f); fclose(f); }
@@ -91,14 +94,14 @@ void prop_c20(hz::Ctx &ctx) {
     // lines that emit nothing (comment in column 0, indented comment, blank, label) at random positions
     if (r.below(3) == 0) { int k = 1 + (int)r.below(3); static const char *NOISE[] = {"; comment", ";", "  ; indented comment", "", "label:", "   ", ";;; x"}; for (int j = 0; j < k; j++) c.lines.insert(c.lines.begin() + r.below(c.lines.size() + (progkind == 2 ? -1 : 1)), NOISE[r.below(7)]); }
     c.longname = r.below(6) == 0 ? (r.below(3) == 0 ? 240 + (int)r.below(30) : r.below(2) ? 80 + (int)r.below(60) : 300 + (int)r.below(500)) : 0;
-    c.sep = r.below(5) == 0 ? 1 + (int)r.below(2) : 0; c.rkind = r.below(2) ? (int)r.below(7) : 0;
+    c.sep = r.below(5) == 0 ? 1 + (int)r.below(2) : 0; c.rkind = r.below(2) ? (int)r.below(7) : 0; if (c.longname == 0 && r.below(8) == 0) c.longname = -1 - (int)r.below(12);
     c.p = outs & 1; c.r = progkind == 2 && (outs & 2); c.outkind = (outs >> 2) % 4; static const int CH[] = {0, 0, 0, 2, 3, 7, 16, 64}; c.chunk = CH[chunksel % 8]; static const int BK[] = {0, 0, 0, 2, 5, 16, 32, 4096}; c.brk = BK[brksel % 8];
     c.from_stdin = from_stdin; c.final_newline = nl; return c; },
     rc::gen::container<std::vector<int>>(range(0, 15)), rc::gen::container<std::vector<int>>(range(0, 1 << 20)), rc::gen::weightedElement<int>({{5, 0}, {2, 1}, {4, 2}}), range(0, 16), range(0, 8), range(0, 8), rc::gen::arbitrary<bool>(), range(0, 1 << 30), rc::gen::arbitrary<bool>());
   rc_rounds(ctx, "C20-cli", ctx.thorough() ? 600000 : 80000, 40, [&]() {
     CliCase c = *gen_case; std::string id = ser20(c); if (!ctx.begin(id, cmdline(c))) return;
     int groups = (c.modeflags.empty() ? 0 : 1) + (c.p || c.outkind ? 1 : 0) + (c.chunk || c.brk ? 1 : 0) + (c.r ? 1 : 0);
-    for (auto &l : c.lines) if (l.size() >= 100) { ctx.cls("line:100+chars"); break; } if (c.longname) ctx.cls("output:long-name"); if (c.longname >= 250) ctx.cls("output:name-beyond-255"); if (c.sep) ctx.cls(c.sep == 1 ? "newline:crlf" : "newline:cr"); for (auto &l : c.lines) if (l.size() >= 255) { ctx.cls("line:255+chars"); break; } if ((c.outkind == 1 || c.outkind == 2) && ((hz::fnv(ser20(c)) >> 5) & 1)) ctx.cls("output:stale-file-in-place");
+    for (auto &l : c.lines) if (l.size() >= 100) { ctx.cls("line:100+chars"); break; } if (c.longname > 0) ctx.cls("output:long-name"); if (c.longname < 0) ctx.cls("output:name-with-special-characters"); if (c.longname >= 250) ctx.cls("output:name-beyond-255"); if (c.sep) ctx.cls(c.sep == 1 ? "newline:crlf" : "newline:cr"); for (auto &l : c.lines) if (l.size() >= 255) { ctx.cls("line:255+chars"); break; } if ((c.outkind == 1 || c.outkind == 2) && ((hz::fnv(ser20(c)) >> 5) & 1)) ctx.cls("output:stale-file-in-place");
     for (auto &l : c.lines) if (l.empty() || l[0] == ';' || l.find(':') != std::string::npos || l.find_first_not_of(' ') == std::string::npos) { ctx.cls("program:has-non-code-lines"); break; }
     ctx.cls(c.from_stdin ? "source:stdin" : "source:file"); ctx.cls(std::string("program:") + (c.progkind == 0 ? "pool" : c.progkind == 1 ? "failing" : "executable")); if (c.p) ctx.cls("flag:-p"); if (c.r) ctx.cls("flag:-r"); if (c.r && c.rkind) ctx.cls("flag:run-variant"); if (c.chunk) ctx.cls("flag:-c"); if (c.brk) ctx.cls("flag:-b"); if (c.outkind == 1) ctx.cls("flag:-P"); if (c.outkind == 2) ctx.cls("flag:-o"); if (c.outkind == 3) ctx.cls("output:unwritable"); if (!c.modeflags.empty()) ctx.cls("flag:mode");
     if (groups >= 2 || c.progkind == 1) ctx.nontrivial(id);
